@@ -907,7 +907,9 @@ def check_C12(sc, v, tier, seed, replay):
                      "cause": [36, 0x29, 0x59, 0x80, 0xC0, rnd.randrange(256)][i % 6],
                      "rq": [32, 0x29, 0x59, rnd.randrange(256)][i % 4],
                      "sel": [0x11, 0x21, 0x31][i % 3],
-                     "ambr": [[6, 0, 1, 6, 0, 1], [0x29, 0x29, 0x29, 0x59, 0x59, 0x29], [rnd.randrange(256) for _ in range(6)]][i % 3],
+                     # (session AMBR: unit octets 0 = "value is not used", 1..25 defined, above that "multiples of 256 Pbps": all valid encodings)
+                     "ambr": [[6, 0, 1, 6, 0, 1], [0x29, 0x29, 0x29, 0x59, 0x59, 0x29], [rnd.randrange(256) for _ in range(6)],
+                              [0, 0, 1, 6, 0, 1], [1, 255, 255, 0, 0, 0], [25, 0, 1, 26, 0, 1], [255, 255, 255, 255, 255, 255]][i % 7],
                      "ambrDl": big(rnd.choice([0, 1, 255, 256, 65535, 65536, 1 << 32, 4000000000000, rnd.randrange(4000000000001)])),
                      "ambrUl": big(rnd.choice([0, 1, 1 << 16, 1 << 24, 1 << 40, 4000000000000]))})
         # every fourth Accept also carries information elements of later releases behind the tabulated ones, with values that look like
